@@ -440,6 +440,8 @@ func c07RandOuts(rng *rand.Rand, n int) []c07Out {
 
 // perturb applies perturbation p; each is meant to break exactly one check of an honest proposal
 func c07Perturb(rng *rand.Rand, c *c07Case, p string) {
+	// a perturbation that does not apply to the shape an earlier one left behind is a no-op
+	defer func() { recover() }()
 	pr := &c.prop
 	pick := func(os []c07Out) int {
 		if len(os) == 0 {
